@@ -137,8 +137,8 @@ func idxList(d []int) string {
 // ---------- operation generators ----------
 
 type op struct {
-	kind int   // 0 Put/Add, 1 Remove, 2 Clear
-	k, v int   // universe indexes (maps / bidi)
+	kind  int   // 0 Put/Add, 1 Remove, 2 Clear
+	k, v  int   // universe indexes (maps / bidi)
 	items []int // sets: the variadic batch
 }
 
